@@ -136,7 +136,7 @@ class SigmaCorrelationCondition:
                 cond_op = SigmaCorrelationConditionOperator[op.upper()]
                 try:
                     cond_count = int(d[op])
-                except ValueError:
+                except (ValueError, TypeError):
                     raise sigma_exceptions.SigmaCorrelationConditionError(
                         f"'{ d[op] }' is no valid Sigma correlation condition count", source=source
                     )
@@ -153,7 +153,7 @@ class SigmaCorrelationCondition:
             cond_percentile = int(d["percentile"])
         except KeyError:
             cond_percentile = None
-        except ValueError:
+        except (ValueError, TypeError):
             raise sigma_exceptions.SigmaCorrelationConditionError(
                 f"'{ d['percentile'] }' is no valid Sigma correlation condition percentile",
                 source=source,
@@ -351,7 +351,7 @@ class SigmaCorrelationTimespan:
                     "y": 31556952,
                 }[self.unit]
             )
-        except (ValueError, KeyError):
+        except (ValueError, KeyError, TypeError, IndexError):
             raise sigma_exceptions.SigmaTimespanError(f"Timespan '{ self.spec }' is invalid.")
 
 
@@ -522,19 +522,28 @@ class SigmaCorrelationRule(SigmaRuleBase, ProcessingItemTrackingMixin):
         source: SigmaRuleLocation | None = None,
     ) -> Self:
         kwargs, errors = super().from_dict_common_params(rule, collect_errors, source)
-        correlation_rule = rule.get("correlation", dict())
+        correlation_rule = rule.get("correlation", dict()) if isinstance(rule, dict) else dict()
+        if not isinstance(correlation_rule, dict):
+            errors.append(
+                sigma_exceptions.SigmaCorrelationRuleError(
+                    "Sigma correlation definition must be a map", source=source
+                )
+            )
+            correlation_rule = dict()
 
         # Correlation type
         correlation_type = correlation_rule.get("type")
         if correlation_type is not None:
             try:
                 correlation_type = SigmaCorrelationType[correlation_type.upper()]
-            except KeyError:
+            except (KeyError, AttributeError):
                 errors.append(
                     sigma_exceptions.SigmaCorrelationTypeError(
                         f"'{ correlation_type }' is no valid Sigma correlation type", source=source
                     )
                 )
+                if not isinstance(correlation_type, str):
+                    correlation_type = None
         else:  # no correlation type provided
             errors.append(
                 sigma_exceptions.SigmaCorrelationTypeError(
@@ -549,8 +558,10 @@ class SigmaCorrelationRule(SigmaRuleBase, ProcessingItemTrackingMixin):
             if isinstance(rules_value, str):
                 # Simple rule reference
                 rules = [SigmaRuleReference(rules_value)]
-            elif isinstance(rules_value, list):
-                rules = [SigmaRuleReference(rule) for rule in rules_value]
+            elif isinstance(rules_value, list) and all(
+                isinstance(rule_ref, str) for rule_ref in rules_value
+            ):
+                rules = [SigmaRuleReference(rule_ref) for rule_ref in rules_value]
             else:
                 errors.append(
                     sigma_exceptions.SigmaCorrelationRuleError(
@@ -613,7 +624,11 @@ class SigmaCorrelationRule(SigmaRuleBase, ProcessingItemTrackingMixin):
         aliases = correlation_rule.get("aliases")
         if aliases is not None:
             if isinstance(aliases, dict):
-                aliases = SigmaCorrelationFieldAliases.from_dict(aliases)
+                try:
+                    aliases = SigmaCorrelationFieldAliases.from_dict(aliases)
+                except sigma_exceptions.SigmaError as e:
+                    errors.append(e)
+                    aliases = SigmaCorrelationFieldAliases()
             else:
                 errors.append(
                     sigma_exceptions.SigmaCorrelationRuleError(
@@ -625,12 +640,15 @@ class SigmaCorrelationRule(SigmaRuleBase, ProcessingItemTrackingMixin):
 
         # Condition - can be either a dict (basic condition) or a string (extended condition)
         condition_value = correlation_rule.get("condition")
-        condition: SigmaCorrelationCondition | SigmaExtendedCorrelationCondition
+        condition: SigmaCorrelationCondition | SigmaExtendedCorrelationCondition | None = None
 
         if condition_value is not None:
             if isinstance(condition_value, dict):
                 # Basic condition
-                condition = SigmaCorrelationCondition.from_dict(condition_value, source=source)
+                try:
+                    condition = SigmaCorrelationCondition.from_dict(condition_value, source=source)
+                except sigma_exceptions.SigmaError as e:
+                    errors.append(e)
             elif isinstance(condition_value, str):
                 # Extended condition - only valid for temporal types
                 if correlation_type not in (
@@ -689,17 +707,24 @@ class SigmaCorrelationRule(SigmaRuleBase, ProcessingItemTrackingMixin):
         ):
             rules = None
 
-        return cls(
-            type=correlation_type,
-            rules=rules,
-            generate=generate,
-            timespan=timespan,
-            group_by=group_by,
-            aliases=aliases,
-            condition=condition,
-            errors=errors,
-            **kwargs,
-        )
+        try:
+            return cls(
+                type=correlation_type,
+                rules=rules,
+                generate=generate,
+                timespan=timespan,
+                group_by=group_by,
+                aliases=aliases,
+                condition=cast(Any, condition),
+                errors=errors,
+                **kwargs,
+            )
+        except sigma_exceptions.SigmaError as e:
+            if not collect_errors:
+                raise
+            # Error collection: the erroneous definition can't be turned into a consistent
+            # correlation rule object, return a placeholder that carries the collected errors.
+            return cls(rules=[], errors=errors or [e], **kwargs)
 
     @classmethod
     def from_yaml(cls, rule: str, collect_errors: bool = False) -> Self:
